@@ -98,6 +98,10 @@ impl MemDb {
         }
         Ok(())
     }
+    /// how often a faulted key has been queried so far (0 for keys without a fault plan)
+    pub fn query_count(&self, key: &RKey) -> u32 {
+        self.counters.lock().get(key).copied().unwrap_or(0)
+    }
     fn maybe_yield(&self) {
         if self.yields {
             controller().harness_point(PT_HARNESS_DB);
